@@ -795,7 +795,8 @@ pub fn gen_crash_sweep(seed: u64, thorough: bool, o: &mut Out) -> Vec<String> {
 
 /// D6: long random histories of the slot ring (C05 C12 C13): start / deliver / complete / cancel / reboot+recover /
 /// copy-done / confirm / reject / power loss inside start; after every step the two queries are compared with the
-/// lifecycle oracle kept by the executor.
+/// lifecycle oracle kept by the executor. The generator executes the history as it builds it, so that the
+/// bootloader / application marks are driven by what the bootloader query actually reports.
 pub fn gen_ring(seed: u64, thorough: bool, o: &mut Out) -> Vec<String> {
     let mut rng = Rng::new(seed ^ 0xD6);
     let mut q = vec![];
@@ -803,109 +804,110 @@ pub fn gen_ring(seed: u64, thorough: bool, o: &mut Out) -> Vec<String> {
     for _ in 0..nhist {
         let nslots = *rng.pick(&[4usize, 4, 5, 6]);
         let slot = 20480;
-        q.push(format!("new dev {} {} 4096", nslots, slot));
+        let mut ex = Exec::new();
+        let mut dummy = Out::new();
+        let mut push = |q: &mut Vec<String>, ex: &mut Exec, l: String| -> String {
+            let a = guarded(|| ex.line(&l, &mut dummy)).unwrap_or_else(|_| "HARNESS-PANIC".into());
+            q.push(l);
+            a
+        };
+        push(&mut q, &mut ex, format!("new dev {} {} 4096", nslots, slot));
         let steps = rng.range(8, if thorough { 60 } else { 30 });
-        // generator-side view of what is pending, to respect "at most one image awaiting copy / acknowledgement"
-        let mut pending: Option<(usize, u8)> = None; // (slot, 0 = copy pending, 1 = ack pending)
-        let mut live = false;
         let mut live_img: Option<Img> = None;
         for _ in 0..steps {
             let choice = rng.below(12);
             match choice {
                 0..=3 => {
-                    // start (possibly starting over a live session), maybe deliver and complete
                     let (isz, inn) = (*rng.pick(&[3usize, 4, 5]), rng.range(15, 24) as usize);
                     let img = Img::make(&mut rng, isz, inn);
-                    q.extend(img.lines());
-                    // with a crash inside start in some cases
+                    for l in img.lines() {
+                        push(&mut q, &mut ex, l);
+                    }
                     if rng.chance(1, 5) {
                         let ck = rng.below(14);
-                        q.push(format!("crash {}", ck));
-                        q.push(format!("start {} {}", img.sz, img.n));
-                        q.push("reboot".into());
-                        q.push("recover".into());
-                        live = false; // unknown: ask the reference below
-                        live_img = None;
+                        push(&mut q, &mut ex, format!("crash {}", ck));
+                        push(&mut q, &mut ex, format!("start {} {}", img.sz, img.n));
+                        push(&mut q, &mut ex, "reboot".into());
+                        let a = push(&mut q, &mut ex, "recover".into());
+                        live_img = if a.starts_with("res=Some") { live_img } else { None };
+                        if let Some(old) = live_img.clone() {
+                            // the earlier session survived: its image is the one in flight again
+                            for l in old.lines() {
+                                push(&mut q, &mut ex, l);
+                            }
+                        }
                         o.stat("ring-crash-in-start");
                     } else {
-                        q.push(format!("start {} {}", img.sz, img.n));
-                        live = true;
-                        live_img = Some(img);
+                        let a = push(&mut q, &mut ex, format!("start {} {}", img.sz, img.n));
+                        live_img = if a.starts_with("res=Ok") { Some(img) } else { None };
                         o.stat("ring-start");
                     }
                 }
                 4 | 5 => {
-                    if let (true, Some(img)) = (live, live_img.clone()) {
-                        if pending.is_none() {
-                            for i in 1..=img.n as u32 {
-                                q.push(format!("seg {} {}", i, hex(&img.fragment(i))));
-                            }
-                            q.push("check".into());
-                            // which slot: learn from the reference run
-                            let a = reference(&q);
-                            if let Some(sl) = a.last().and_then(|x| x.strip_prefix("res=Ok(")).and_then(|r| r.split(')').next()).and_then(|x| x.parse::<usize>().ok()) {
-                                pending = Some((sl, 0));
-                            }
-                            live = false;
-                            live_img = None;
-                            o.stat("ring-complete");
+                    // deliver everything and complete — only when no other image is awaiting copy / acknowledgement
+                    let bl = push(&mut q, &mut ex, "bl life".into());
+                    if let (Some(img), true) = (live_img.clone(), bl == "res=Idle") {
+                        for i in 1..=img.n as u32 {
+                            push(&mut q, &mut ex, format!("seg {} {}", i, hex(&img.fragment(i))));
                         }
+                        push(&mut q, &mut ex, "check".into());
+                        live_img = None;
+                        o.stat("ring-complete");
                     }
                 }
                 6 => {
-                    q.push("cancel".into());
-                    live = false;
+                    push(&mut q, &mut ex, "cancel".into());
                     live_img = None;
                     o.stat("ring-cancel");
                 }
                 7 => {
-                    q.push("reboot".into());
-                    q.push("recover".into());
-                    if rng.chance(1, 3) {
-                        q.push("recover".into()); // idempotence
+                    push(&mut q, &mut ex, "reboot".into());
+                    let a = push(&mut q, &mut ex, "recover".into());
+                    if !a.starts_with("res=Some") {
+                        live_img = None;
                     }
-                    // the live session survives a clean reboot (C07); keep `live` as is, but the image is still known
+                    if rng.chance(1, 3) {
+                        push(&mut q, &mut ex, "recover".into()); // idempotence
+                    }
                     o.stat("ring-reboot-recover");
                 }
                 8 | 9 => {
-                    if let Some((sl, st)) = pending {
-                        if st == 0 {
-                            q.push(format!("mark {} int", sl));
-                            pending = Some((sl, 1));
-                            o.stat("ring-copy-done");
+                    // bootloader copy / first-boot acknowledgement, driven by the bootloader query
+                    let bl = push(&mut q, &mut ex, "bl life".into());
+                    if let Some(r) = bl.strip_prefix("res=Copy(") {
+                        let sl: usize = r.trim_end_matches(')').parse().unwrap();
+                        push(&mut q, &mut ex, format!("mark {} int", sl));
+                        o.stat("ring-copy-done");
+                    } else if let Some(r) = bl.strip_prefix("res=Unack(") {
+                        let sl: usize = r.trim_end_matches(')').parse().unwrap();
+                        if rng.chance(2, 3) {
+                            push(&mut q, &mut ex, format!("mark {} ok", sl));
+                            o.stat("ring-confirm");
                         } else {
-                            if rng.chance(2, 3) {
-                                q.push(format!("mark {} ok", sl));
-                                o.stat("ring-confirm");
-                            } else {
-                                q.push(format!("mark {} bad", sl));
-                                o.stat("ring-reject");
-                            }
-                            pending = None;
+                            push(&mut q, &mut ex, format!("mark {} bad", sl));
+                            o.stat("ring-reject");
                         }
                     }
                 }
                 10 => {
-                    // invalid parameters: must not touch anything
                     let (bsz, bn) = (*rng.pick(&[0u32, 257, 4]), *rng.pick(&[0u32, 16385, 5000]));
-                    q.push(format!("start {} {}", bsz, bn));
-                    // a failed start drops the in-memory session object but not the on-flash session
+                    push(&mut q, &mut ex, format!("start {} {}", bsz, bn));
+                    live_img = None; // the in-memory session object is gone (the on-flash session is not)
                     o.stat("ring-start-invalid");
                 }
                 _ => {
-                    // partial delivery
-                    if let (true, Some(img)) = (live, live_img.clone()) {
+                    if let Some(img) = live_img.clone() {
                         for _ in 0..rng.range(1, 6) {
                             let i = rng.range(1, img.n as u64 + 4) as u32;
-                            q.push(format!("seg {} {}", i, hex(&img.fragment(i))));
+                            push(&mut q, &mut ex, format!("seg {} {}", i, hex(&img.fragment(i))));
                         }
                     }
                 }
             }
-            q.push("bl life".into());
-            q.push("fb life".into());
+            push(&mut q, &mut ex, "bl life".into());
+            push(&mut q, &mut ex, "fb life".into());
         }
-        q.push("dump".into());
+        push(&mut q, &mut ex, "dump".into());
     }
     q
 }
